@@ -45,14 +45,15 @@ def u32le (v : View) (i : Nat) : Option Nat := do
   let b3 ← v.u8 (i + 3)
   pure (b0 + 256 * b1 + 65536 * b2 + 16777216 * b3)
 
-/-- `strcmp((char *)(buffer + off), lit) == 0`: bytes are read up to the first difference -/
+/-- `strcmp((char *)(buffer + off), lit) == 0`: bytes are read up to the first difference or the NUL
+(a `Name` stands for the C string up to its first zero byte, if it has one) -/
 def cstrEq (v : View) : Nat → Name → Option Bool
   | off, [] => do
     let c ← v.u8 off
     pure (c == 0)
   | off, x :: xs => do
     let c ← v.u8 off
-    if c ≠ x.toNat then pure false else cstrEq v (off + 1) xs
+    if c ≠ x.toNat then pure false else if c = 0 then pure true else cstrEq v (off + 1) xs
 
 /-- the C string at `buffer + off` (what a returned `const char *` denotes); `fuel` bounds the scan -/
 def cstr (v : View) : Nat → Nat → Option Name
